@@ -88,3 +88,8 @@ package api
 // on the user's request, or by the API itself only when nothing is written to the file system at all.
 //@ guarded overwrite-forced-only-when-not-writing C17: func=validateBuildOptions ; in=api ; site=store Options.AllowOverwrite ; when=true ; require=false:buildOpts.Write
 //@ flow overwrite-is-the-users-choice C17: func=validateBuildOptions ; in=api ; site=store Options.AllowOverwrite ; valuepath=buildOpts.AllowOverwrite|true
+
+// C20: the dev server's live-reload state (event streams, current hashes) is shared between HTTP handler goroutines and
+// the build that broadcasts its result; it may only be touched under apiHandler.mutex, and nothing that can block
+// on another party (a channel send to a stream whose client may not be reading) may happen while it is held.
+//@ protect serve-state C20: type=apiHandler ; fields=activeStreams,currentHashes ; mutex=mutex ; in=api
